@@ -39,3 +39,12 @@ package stringtemplate
 //@   ensures[scratch-buffer-reset] len(result.1) == 0 || (len(tmpl.partProviders) == 1 && result.1 === buffer)
 //@   loop 1: invariant -1 <= rangeindex && rangeindex < len(tmpl.partProviders) && len(buf) == elen(tmpl, fields, rangeindex + 1)
 //@   loop 1: invariant (ref(buf) == ref(buffer) && off(buf) == off(buffer) && cap(buf) == cap(buffer)) || isfresh(buf)
+
+// building the slice expression of "${name[a:b]}" never aborts: an index the regexp accepts but strconv.Atoi rejects (more
+// digits than an int holds) has to come back as an error of NewExpander (C16: rejected configurations fail cleanly)
+// the group numbers of variableExpressionRegex (name = 1, start = 3, end = 4; five submatches): trusted regexp semantics
+//@ global capturedNameIndex == 1 && capturedStartIndex == 3 && capturedEndIndex == 4
+//@ func createVariableExpressionSolver(variableResolver PartProvider, expressionSubmatches []string) (PartProvider, error)
+//@   property C16 C15 C07
+//@   requires len(expressionSubmatches) >= 5
+//@   modifies nothing
